@@ -339,6 +339,7 @@ func vfRunRoute(t *testing.T, job *vfRouteJob) (out vfRouteOut) {
 				}
 				wait()
 				e.syncInstances(wait)
+				e.checkBookkeeping()
 			}
 			if out.Err == "" {
 				out.Key = e.stateKey()
@@ -651,6 +652,17 @@ func vfRouteDepth(tier string) int {
 }
 
 // vfRouteCheck is the shared body of TestVerifC01..C03.
+// vfOnlyScenarios restricts vfRouteCheck to the named scenarios (nil = all).
+var vfOnlyScenarios map[string]bool
+
+// TestVerifC05Routing: the proxy-id table inside real senders (third part of C05) - the routing scenarios in which
+// several sources share a target, watermark-only batches are broadcast and the ring wraps, with the sender-table oracle.
+func TestVerifC05Routing(t *testing.T) {
+	vfOnlyScenarios = map[string]bool{"2x1-shared-target": true, "1x2-single2": true, "1x2-single3": true, "1x2-idle-target": true, "1x1-ring3": true,
+		"1x2-wm-advances": true, "1x2-lane-acks": true, "2x2": true}
+	vfRouteCheck(t, "C05", "TestVerifC05Routing")
+}
+
 func vfRouteCheck(t *testing.T, property string, testName string) {
 	if vrt.IsWorker() {
 		vfRouteWorker(t)
@@ -672,6 +684,9 @@ func vfRouteCheck(t *testing.T, property string, testName string) {
 	st := &vfBFSStats{Outcomes: map[string]bool{}, Exhaustive: true}
 	var names []string
 	for _, sc := range vfScenarios(vrt.Tier(), false) {
+		if vfOnlyScenarios != nil && !vfOnlyScenarios[sc.Name] {
+			continue
+		}
 		before := st.States
 		vfRouteBFS(t, pool, sc, vfRouteDepth(vrt.Tier()), true, props, res, deadline, st)
 		names = append(names, fmt.Sprintf("%s(states=%d)", sc.Name, st.States-before))
